@@ -1,0 +1,139 @@
+//go:build verif
+
+package metautils
+
+import (
+	sutils "github.com/siglens/siglens/pkg/segment/utils"
+)
+
+// C03 pruning-soundness lemmas: if a value v stored in a block lies inside the
+// block's range index [lo,hi] and satisfies `v op q` under the record-level
+// comparison, the range filter must keep the block.  The record-level
+// comparison is spelled out in Go (it is the verified postcondition of
+// writer.compareNumberDte: cmpI64 / cmpU64 / cmpF64Tol); govc proves
+// `ensures result` from the contracts of does*PassRangeFilter only.
+
+//@ func verifLemmaPruneSoundInt
+//@   props C03
+//@   lemma
+//@   ensures result
+//@ end
+
+func verifLemmaPruneSoundInt(op sutils.FilterOperator, q, v, lo, hi int64) bool {
+	if !(lo <= v && v <= hi) {
+		return true
+	}
+	var hit bool
+	switch op {
+	case sutils.Equals:
+		hit = v == q
+	case sutils.NotEquals:
+		hit = v != q
+	case sutils.LessThan:
+		hit = v < q
+	case sutils.LessThanOrEqualTo:
+		hit = v <= q
+	case sutils.GreaterThan:
+		hit = v > q
+	case sutils.GreaterThanOrEqualTo:
+		hit = v >= q
+	default:
+		return true
+	}
+	if !hit {
+		return true
+	}
+	return doesIntPassRangeFilter(op, q, lo, hi)
+}
+
+//@ func verifLemmaPruneSoundUint
+//@   props C03
+//@   lemma
+//@   ensures result
+//@ end
+
+func verifLemmaPruneSoundUint(op sutils.FilterOperator, q, v, lo, hi uint64) bool {
+	if !(lo <= v && v <= hi) {
+		return true
+	}
+	var hit bool
+	switch op {
+	case sutils.Equals:
+		hit = v == q
+	case sutils.NotEquals:
+		hit = v != q
+	case sutils.LessThan:
+		hit = v < q
+	case sutils.LessThanOrEqualTo:
+		hit = v <= q
+	case sutils.GreaterThan:
+		hit = v > q
+	case sutils.GreaterThanOrEqualTo:
+		hit = v >= q
+	default:
+		return true
+	}
+	if !hit {
+		return true
+	}
+	return doesUintPassRangeFilter(op, q, lo, hi)
+}
+
+// Float columns: the record-level `=` has a 1e-4 tolerance (AlmostEquals),
+// so the lemma is stated for the exact comparison here and the tolerance
+// case is the separate lemma below (a known finding, see DESIGN.md C03).
+
+//@ func verifLemmaPruneSoundFloatExact
+//@   props C03
+//@   lemma
+//@   requires !isNaN(q) && !isNaN(v) && !isNaN(lo) && !isNaN(hi)
+//@   ensures result
+//@ end
+
+func verifLemmaPruneSoundFloatExact(op sutils.FilterOperator, q, v, lo, hi float64) bool {
+	if !(lo <= v && v <= hi) {
+		return true
+	}
+	var hit bool
+	switch op {
+	case sutils.Equals:
+		hit = v == q
+	case sutils.NotEquals:
+		hit = v != q
+	case sutils.LessThan:
+		hit = v < q
+	case sutils.LessThanOrEqualTo:
+		hit = v <= q
+	case sutils.GreaterThan:
+		hit = v > q
+	case sutils.GreaterThanOrEqualTo:
+		hit = v >= q
+	default:
+		return true
+	}
+	if !hit {
+		return true
+	}
+	return doesFloatPassRangeFilter(op, q, lo, hi)
+}
+
+//@ func verifLemmaPruneSoundFloatTolerance
+//@   props C03
+//@   lemma
+//@   requires !isNaN(q) && !isNaN(v) && !isNaN(lo) && !isNaN(hi)
+//@   ensures result
+//@ end
+
+func verifLemmaPruneSoundFloatTolerance(q, v, lo, hi float64) bool {
+	if !(lo <= v && v <= hi) {
+		return true
+	}
+	d := v - q
+	if d < 0 {
+		d = -d
+	}
+	if !(d < 0.0001) { // record-level float `=` (dtypeutils.AlmostEquals)
+		return true
+	}
+	return doesFloatPassRangeFilter(sutils.Equals, q, lo, hi)
+}
